@@ -54,7 +54,8 @@ InitImpl(r) ==
 
 Init ==
   /\ rq \in Rqs
-  /\ sv \in { p \in PreSet : p # "none" => (rq.expect /\ BodyDue(rq)) }
+  \* refusals presuppose the handshake; a 100 may also arrive unsolicited (no Expect) and is then an interim response
+  /\ sv \in { p \in PreSet : p \notin {"none", "100"} => (rq.expect /\ BodyDue(rq)) }
   /\ a = InitFlow([method |-> rq.method, ver10 |-> rq.ver10, expect |-> rq.expect, connclose |-> rq.connclose])
   /\ i = InitImpl(rq)
   /\ env = [earr |-> 1, took100 |-> FALSE, finalSeen |-> FALSE]
@@ -195,7 +196,7 @@ RRLate100 ==
      ELSE LET skip == i.await
               e == [op |-> "try_response", st |-> i.st, kind |-> "late100", res |-> IF skip THEN "none" ELSE "some",
                     n |-> 25, mlen |-> 25, ready |-> FALSE, fails |-> {}]
-          IN /\ Emit(e, ResponseFails(a, e), [i EXCEPT !.await = FALSE], ResponseUpd(a, e))
+          IN /\ Emit(e, ResponseFails(a, e), [i EXCEPT !.await = FALSE, !.status = IF skip THEN @ ELSE 100], ResponseUpd(a, e))
              /\ env' = [env EXCEPT !.took100 = TRUE]
   /\ UNCHANGED <<rq, sv>>
 
